@@ -68,7 +68,15 @@ class Ctx:
         if getattr(self, attr):
             return getattr(self, attr)
         out = os.path.join(self.scratch, "fv-race" if race else "fv")
-        cmd = ["go", "build", "-tags", "verif"] + (["-race"] if race else []) + ["-o", out, "./cmd/fv"]
+        cmd = ["go", "build", "-tags", "verif"] + (["-race"] if race else [])
+        if os.path.realpath(REPO) != "/repo":
+            # checks normally bind to /repo; VERIF_REPO points the driver's replace directive at another tree
+            mod = open(os.path.join(VERIF, "harness", "go.mod")).read().replace("=> /repo", "=> " + os.path.realpath(REPO))
+            modf = os.path.join(self.scratch, "go.alt.mod")
+            open(modf, "w").write(mod)
+            shutil.copy(os.path.join(VERIF, "harness", "go.sum"), os.path.join(self.scratch, "go.alt.sum"))
+            cmd += ["-modfile", modf]
+        cmd += ["-o", out, "./cmd/fv"]
         p = subprocess.run(cmd, cwd=os.path.join(VERIF, "harness"), env=self.goenv(), capture_output=True, text=True)
         if p.returncode != 0:
             raise Broken("go build failed:\n" + p.stdout + p.stderr)
@@ -361,12 +369,13 @@ class Ctx:
                       (self.pid, k["site"], k["what"], json.dumps(hit[2]["input"])[:160], hit[1]))
             else:
                 log("note: open finding %s did not show in this run" % k["site"])
-        os.makedirs(os.path.join(VERIF, "replay"), exist_ok=True)
+        rdir = os.path.join(os.environ.get("VERIF_EVIDENCE_DIR") or VERIF, "replay")
+        os.makedirs(rdir, exist_ok=True)
         nviol = 0
         for site, fs, conf in violations:
             nviol += len(fs)
             h = hashlib.sha1((conf["payload"]).encode()).hexdigest()[:10]
-            rp = os.path.join(VERIF, "replay", "%s-%s.json" % (self.pid, h))
+            rp = os.path.join(rdir, "%s-%s.json" % (self.pid, h))
             json.dump({"property": self.pid, "family": conf["family"], "kind": conf["kind"], "payload": conf["payload"],
                        "site": site, "input": conf["input"], "expected": conf["expected"], "observed": conf["observed"],
                        "stage": conf["stage"], "module": conf.get("module"), "cfg": conf.get("cfg"),
@@ -392,8 +401,9 @@ class Ctx:
         ev = {"property_id": self.pid, "tier": self.tier, "seed": self.seed, "level": self.level,
               "coverage": cov, "assumptions": list(assumptions) + self.assumptions,
               "wall_s": round(time.time() - self.t0, 1), "violations": nviol}
-        os.makedirs(os.path.join(VERIF, "evidence"), exist_ok=True)
-        json.dump(ev, open(os.path.join(VERIF, "evidence", self.pid + ".json"), "w"), indent=1)
+        evdir = os.environ.get("VERIF_EVIDENCE_DIR") or os.path.join(VERIF, "evidence")
+        os.makedirs(evdir, exist_ok=True)
+        json.dump(ev, open(os.path.join(evdir, self.pid + ".json"), "w"), indent=1)
         if nviol:
             return 1
         if unconfirmed:
